@@ -405,7 +405,7 @@ def for_property(prop, tier, seed=0):
             fam += three_thread((1, 2))
     elif prop == 'C04':
         fam = core_mix((0, 1) if quick else (0, 1, 2)) + [s for s in future_mix((0, 1) if quick else (0, 1, 2)) if '_S_' in s['name'] or 'FDaw' in s['name']]
-        fam += three_thread((0,))[:1] + parked_drainer_families()[1:] + [s for s in spurious_families((0, 1)) if 'during_S' in s['name']]
+        fam += three_thread((0,))[:1] + parked_drainer_families()[1:] + [s for s in spurious_families((0, 1)) if any(op['k'] == 'sync' for op in scenlib.flatten(s).values())]
         if not quick:
             fam += three_thread((0, 1, 2))
     elif prop == 'C06':
@@ -459,7 +459,7 @@ def for_property(prop, tier, seed=0):
     return out
 
 
-QUICK_CAP = 24
+QUICK_CAP = 30
 
 
 def spread_order(scenarios):
